@@ -1,0 +1,45 @@
+//go:build linux && !wasm
+
+package signal
+
+import (
+	"unsafe"
+
+	c "github.com/goplus/llgo/runtime/internal/clite"
+)
+
+const (
+	LLGoPackage = "link"
+)
+
+// saNodefer is SA_NODEFER: do not block the signal while its handler runs.
+// The runtime leaves the SIGSEGV handler with siglongjmp (panic/recover), so a
+// signal that is blocked on entry would stay blocked for the rest of the thread
+// and the next fault would kill the process instead of raising a panic.
+const saNodefer = 0x40000000
+
+//llgo:type C
+type SignalHandler func(c.Int)
+
+// sigactiont is struct sigaction of the linux C libraries (glibc, musl):
+//
+//	union { sa_handler; sa_sigaction }; sigset_t sa_mask (1024 bits);
+//	int sa_flags; void (*sa_restorer)(void);
+//
+//llgo:type C
+type sigactiont struct {
+	handler  SignalHandler
+	mask     [128 / unsafe.Sizeof(c.Ulong(0))]c.Ulong
+	flags    c.Int
+	restorer unsafe.Pointer
+}
+
+//go:linkname sigaction C.sigaction
+func sigaction(sig c.Int, act, old *sigactiont) c.Int
+
+func Signal(sig c.Int, hanlder SignalHandler) c.Int {
+	var act sigactiont
+	act.handler = hanlder
+	act.flags = saNodefer
+	return sigaction(sig, &act, nil)
+}
